@@ -98,7 +98,10 @@ def run_one(args):
     aio.IO.write_to_socket = traced
     try:
         chooser = vrt.ReplayChooser(choices) if choices is not None else None
-        plan = vrt.FaultPlan(send_modes=(('full', 5), ('partial', 4), ('eagain', 1), ('timeout', 1)), timeout_advances=False)
+        # without heartbeats a send() time-out may also consume its second of virtual time (a writer that holds the
+        # lock for longer than the socket time-out while others wait for it)
+        plan = vrt.FaultPlan(send_modes=(('full', 5), ('partial', 4), ('eagain', 1), ('timeout', 1)),
+                             timeout_advances=(sc['heartbeat'] == 0 and seed % 3 == 0))
         ctx = vrt.run_scenario(scenario, refbroker.factory(policy), seed=seed, chooser=chooser, plan=plan,
                                p_preempt=0.15, p_jump=0.1, fair_time=(seed % 2 == 1), repo_path=str(common.REPO))
     finally:
